@@ -966,7 +966,8 @@ func (p *prov) callResult(call *ssa.Call, idx int) labelSet {
 			if !ok || idx >= len(ret.Results) {
 				continue
 			}
-			out.addAll(p.val(resolveLoad(ret.Results[idx])))
+			rv := resolveLoad(ret.Results[idx])
+			out.addAll(p.refineAt(rv, b, p.val(rv)))
 		}
 	}
 	return out
